@@ -10,8 +10,8 @@ EXPLANATION = (
     'The property quantifies over fault schedules and is NOT decided as a whole. Decided, for both transports (hyper and the turmoil '
     'simulation feature): X1 no client-side resend — the transport call and each layer above it (send_parts, send_inner) is issued once '
     'per request: exactly one site, not inside any CFG cycle, so a failed attempt is never re-issued; X2 when a timeout is configured, '
-    'every network-dependent await of the exchange (request, reply body, status body) lies inside the future handed to '
-    'tokio::time::timeout, and expiry maps to Status::timeout. NOT decided: reply/request pairing, exactly-once at the handler, timing.')
+    'every await of the exchange (request, reply body, status body — and any other await send_inner performs on that path, e.g. connection '
+    'readiness) lies inside the future handed to tokio::time::timeout, and expiry maps to Status::timeout. NOT decided: reply/request pairing, exactly-once at the handler, timing.')
 ASSUMPTIONS = ['hyper / h2 do not resend a request on their own for POST over HTTP/2 (retry of idempotent requests only)']
 
 R = 'datacake_rpc::'
